@@ -151,8 +151,10 @@ def gen_recurring_case(seed: int, rnd: random.Random) -> SchedCase:
     from common import NS_DAY, NS_HOUR, NS_MIN, NS_S
     zc = ZoneCtx(rnd.choice(SHAPE_ZONES))
     r = rnd.random()
+    chosen = None
     if zc.trans and r < 0.7:
-        t, _, _ = rnd.choice(zc.trans)
+        chosen = rnd.choice(zc.trans)
+        t = chosen[0]
         epoch = (t - rnd.randint(1, 4) * 86400 + rnd.randint(0, 86399)) * NS_S
     elif r < 0.85:
         y = rnd.randint(2001, 2036)
@@ -179,6 +181,10 @@ def gen_recurring_case(seed: int, rnd: random.Random) -> SchedCase:
     n = rnd.randint(1, 3)
     for h in range(1, n + 1):
         p = snap(gen_producer(rnd, zc, epoch, rnd.randint(1, 2), filters=0.3, ops=('group',)))
+        if h == 1 and zc.trans and r < 0.7 and rnd.random() < 0.7:
+            # a time of day inside / at the edge of the interval the coming clock change skips or repeats
+            from gen_prod import REPEATED, SKIPPED
+            p = ('time', rnd.choice(zc.interesting_tods(rnd, chosen)) // 1000 * 1000, rnd.choice(SKIPPED), rnd.choice(REPEATED), None)
         specs[h] = p
         emit(f'create {h} - (at {prod_sx(p)}) - -')
         emit('yield')
